@@ -2,8 +2,10 @@
  * able to address them.   usage: drive_mix <workdir> <case-file>
  *
  * One case per input line, run in its own child process (the single-file interfaces keep static state):
- *   <id> sds <writer> <n> { <rank> <d0|uN> .. <nt> <hex> }*n      writer: dfsd | sd | nc
- *   <id> img <writer> <ril> <n> { <x> <y> <ncomp> <nt> <il> <comp> <hex> <palhex|-> }*n     writer: df | gr
+ *   <id> sds <writer> <pre> <edits> <n> { <rank> <d0|uN> .. <nt> <hex> <meta> }*n      writer: dfsd | sd | nc
+ *        pre: 8-bit images written into the file first; edits: "-" or indices of datasets whose attributes a later
+ *        SD session changes; meta: "-" or s<dim>=<hex>,t=<label>;<unit>;<format>,r=<max>;<min>
+ *   <id> img <writer> <pre> <edits> <ril> <n> { <x> <y> <ncomp> <nt> <il> <comp> <hex> <palhex|-> }*n     writer: df | gr
  *   <id> pal <n> <hex768>*n                                         DFPaddpal
  *   <id> ann <writer> <n> { <fl|fd|ol|od> <tag> <ref> <hex> }*n     writer: dfan | an
  *   <id> raw <views> <ril> <n> { <tag> <ref> <hex|-> }*n            Hputelement of model-made records
@@ -50,7 +52,14 @@ static char *next(void) { return cur < ntok ? tok[cur++] : "0"; }
 static long  nextl(void) { return atol(next()); }
 
 /* ------------------------------------------------------------------ SDS family: writers */
-typedef struct { int rank; int32 dims[8]; int unl; int32 nt; unsigned char *data; long nbytes; } ds_t;
+typedef struct {
+    int rank; int32 dims[8]; int unl; int32 nt; unsigned char *data; long nbytes;
+    unsigned char *scale[8];            /* dimension scales (NULL = none) */
+    int   hasstrs; char strs[3][64];    /* label, unit, format of the data */
+    int   hasrange; unsigned char rmax[8], rmin[8];
+} ds_t;
+
+static void unhexs(const char *h, char *out) { if (h[0] == '_') { out[0] = 0; return; } int n = unhex(h, (unsigned char *)out); out[n] = 0; }
 
 static void parse_ds(ds_t *d)
 {
@@ -65,6 +74,30 @@ static void parse_ds(ds_t *d)
     char *h     = next();
     d->data     = malloc(strlen(h) / 2 + 8);
     d->nbytes   = unhex(h, d->data);
+    /* metadata token: "-" or items separated by ',':  s<dim>=<hex>  t=<label>;<unit>;<format>  r=<max>;<min> */
+    char *m = next();
+    if (m[0] != '-') {
+        char *copy = strdup(m), *save = NULL;
+        for (char *it = strtok_r(copy, ",", &save); it; it = strtok_r(NULL, ",", &save)) {
+            if (it[0] == 's') {
+                int dim = atoi(it + 1);
+                char *v = strchr(it, '=') + 1;
+                d->scale[dim] = malloc(strlen(v) / 2 + 8);
+                unhex(v, d->scale[dim]);
+            }
+            else if (it[0] == 't') {
+                char *a = it + 2, *b = strchr(a, ';'); *b++ = 0;
+                char *c = strchr(b, ';'); *c++ = 0;
+                d->hasstrs = 1;
+                unhexs(a, d->strs[0]); unhexs(b, d->strs[1]); unhexs(c, d->strs[2]);
+            }
+            else if (it[0] == 'r') {
+                char *a = it + 2, *b = strchr(a, ';'); *b++ = 0;
+                d->hasrange = 1;
+                unhex(a, d->rmax); unhex(b, d->rmin);
+            }
+        }
+    }
 }
 
 static int nc_of_dfnt(int32 nt)
@@ -80,20 +113,43 @@ static int nc_of_dfnt(int32 nt)
     return -1;
 }
 
-static void wr_sds(const char *writer, int n)
+static int file_exists(const char *fn) { return access(fn, F_OK) == 0; }
+
+/* objects of the other family written first, so that tag/ref numbering of the case's objects is shifted */
+static void wr_pre(int pre, int images)
+{
+    for (int k = 0; k < pre; k++) {
+        unsigned char b = (unsigned char)(0xE0 + k);
+        int32 one = 1;
+        int   r;
+        if (images) { DFR8setpalette(NULL); r = DFR8addimage(FN, &b, 1, 1, 0); }
+        else { DFSDclear(); DFSDsetdims(1, &one); DFSDsetNT(DFNT_UINT8); r = DFSDadddata(FN, 1, &one, &b); }
+        printf("%s w pre %d %d\n", ID, k, r);
+    }
+}
+
+static void wr_sds(const char *writer, int n, int pre, const char *edits)
 {
     ds_t *ds = calloc(n, sizeof(ds_t));
     for (int k = 0; k < n; k++) parse_ds(&ds[k]);
+    wr_pre(pre, 1);
     if (!strcmp(writer, "dfsd")) {
         for (int k = 0; k < n; k++) {
+            DFSDclear();
             int r1 = DFSDsetdims(ds[k].rank, ds[k].dims);
             int r2 = DFSDsetNT(ds[k].nt);
+            int any = 0;
+            for (int i = 0; i < ds[k].rank; i++) if (ds[k].scale[i]) any = 1;
+            for (int i = 0; any && i < ds[k].rank; i++)    /* NULL: this dimension has no scale */
+                if (DFSDsetdimscale(i + 1, ds[k].dims[i], ds[k].scale[i]) == FAIL) r2 = -1;
+            if (ds[k].hasstrs && DFSDsetdatastrs(ds[k].strs[0], ds[k].strs[1], ds[k].strs[2], "") == FAIL) r2 = -1;
+            if (ds[k].hasrange && DFSDsetrange(ds[k].rmax, ds[k].rmin) == FAIL) r2 = -1;
             int r3 = DFSDadddata(FN, ds[k].rank, ds[k].dims, ds[k].data);
             printf("%s w dfsd %d %d %d %d ref=%d\n", ID, k, r1, r2, r3, (int)DFSDlastref());
         }
     }
     else if (!strcmp(writer, "sd")) {
-        int32 sd = SDstart(FN, DFACC_CREATE);
+        int32 sd = SDstart(FN, file_exists(FN) ? DFACC_RDWR : DFACC_CREATE);
         for (int k = 0; k < n; k++) {
             char  name[32];
             int32 dims[8], start[8] = {0}, edges[8];
@@ -102,10 +158,29 @@ static void wr_sds(const char *writer, int n)
             if (ds[k].unl) dims[0] = SD_UNLIMITED;
             int32 s  = SDcreate(sd, name, ds[k].nt, ds[k].rank, dims);
             int   r1 = SDwritedata(s, start, NULL, edges, ds[k].data);
+            for (int i = 0; i < ds[k].rank; i++)
+                if (ds[k].scale[i] && SDsetdimscale(SDgetdimid(s, i), ds[k].dims[i], ds[k].nt, ds[k].scale[i]) == FAIL) r1 = -1;
+            if (ds[k].hasstrs && SDsetdatastrs(s, ds[k].strs[0], ds[k].strs[1], ds[k].strs[2], NULL) == FAIL) r1 = -1;
+            if (ds[k].hasrange && SDsetrange(s, ds[k].rmax, ds[k].rmin) == FAIL) r1 = -1;
             int   r2 = SDendaccess(s);
             printf("%s w sd %d %d %d %d\n", ID, k, s == FAIL ? -1 : 0, r1, r2);
         }
         printf("%s w sdend %d\n", ID, (int)SDend(sd));
+        /* a later session that only touches the metadata of some datasets (their descriptions are rewritten) */
+        if (edits[0] != '-') {
+            sd = SDstart(FN, DFACC_RDWR);
+            char *copy = strdup(edits), *save = NULL;
+            for (char *it = strtok_r(copy, ",", &save); it; it = strtok_r(NULL, ",", &save)) {
+                char name[32];
+                sprintf(name, "v%d", atoi(it));
+                int32 idx = SDnametoindex(sd, name), val = 77 + atoi(it);
+                int32 s   = SDselect(sd, idx);
+                int   r1  = SDsetattr(s, "later", DFNT_INT32, 1, &val);
+                int   r2  = SDendaccess(s);
+                printf("%s w sdedit %s %d %d\n", ID, it, r1, r2);
+            }
+            printf("%s w sdend2 %d\n", ID, (int)SDend(sd));
+        }
     }
     else if (!strcmp(writer, "nc")) {
         ncopts   = 0;
@@ -154,6 +229,23 @@ static void rd_sds_dfsd(const char *fn)
         printf(" %d", (int)nt);
         if (r == FAIL) printf(" fail\n"); else { phex(buf, nb); printf("\n"); }
         free(buf);
+        /* metadata of the same dataset: dimension scales, strings, range */
+        for (int i = 0; i < rank; i++) {
+            long           sb = (long)dims[i] * ntsize(nt);
+            unsigned char *sc = malloc(sb > 0 ? sb : 1);
+            printf("%s dfsdmeta %d scale %d", ID, k, i);
+            if (DFSDgetdimscale(i + 1, dims[i], sc) == FAIL) printf(" none\n"); else { phex(sc, sb); printf("\n"); }
+            free(sc);
+        }
+        char l[300] = "", u[300] = "", f[300] = "", c[300] = "";
+        if (DFSDgetdatastrs(l, u, f, c) != FAIL) {
+            printf("%s dfsdmeta %d strs", ID, k);
+            phex((unsigned char *)l, strlen(l)); phex((unsigned char *)u, strlen(u)); phex((unsigned char *)f, strlen(f));
+            printf("\n");
+        }
+        unsigned char mx[16], mn[16];
+        printf("%s dfsdmeta %d range", ID, k);
+        if (DFSDgetrange(mx, mn) == FAIL) printf(" none\n"); else { phex(mx, ntsize(nt)); phex(mn, ntsize(nt)); printf("\n"); }
     }
 }
 
@@ -181,6 +273,27 @@ static void rd_sds_sd(const char *fn, const char *view)
         printf(" %d", (int)nt);
         if (r == FAIL) printf(" fail\n"); else { phex(buf, nb); printf("\n"); }
         free(buf);
+        if (!strcmp(view, "sd")) {
+            for (int j = 0; j < rank; j++) {
+                int32 dimid = SDgetdimid(s, j), dsz = 0, dnt = 0, dna = 0;
+                char  dn[256];
+                printf("%s sdmeta %d scale %d", ID, k, j);
+                if (dimid == FAIL || SDdiminfo(dimid, dn, &dsz, &dnt, &dna) == FAIL || dnt == 0 || dims[j] <= 0) printf(" none\n");
+                else {
+                    long           sb = (long)dims[j] * ntsize(dnt);
+                    unsigned char *sc = malloc(sb > 0 ? sb : 1);
+                    if (SDgetdimscale(dimid, sc) == FAIL) printf(" fail\n"); else { phex(sc, sb); printf("\n"); }
+                    free(sc);
+                }
+            }
+            char l[300] = "", u[300] = "", f[300] = "", c[300] = "";
+            printf("%s sdmeta %d strs", ID, k);
+            if (SDgetdatastrs(s, l, u, f, c, 256) == FAIL) printf(" fail\n");
+            else { phex((unsigned char *)l, strlen(l)); phex((unsigned char *)u, strlen(u)); phex((unsigned char *)f, strlen(f)); printf("\n"); }
+            unsigned char mx[16], mn[16];
+            printf("%s sdmeta %d range", ID, k);
+            if (SDgetrange(s, mx, mn) == FAIL) printf(" none\n"); else { phex(mx, ntsize(nt)); phex(mn, ntsize(nt)); printf("\n"); }
+        }
         SDendaccess(s);
         k++;
     }
@@ -353,10 +466,11 @@ static void parse_im(im_t *m)
     if (m->haspal) unhex(p, m->pal);
 }
 
-static void wr_img(const char *writer, int n)
+static void wr_img(const char *writer, int n, int pre, const char *edits)
 {
     im_t *im = calloc(n, sizeof(im_t));
     for (int k = 0; k < n; k++) parse_im(&im[k]);
+    wr_pre(pre, 0);
     if (!strcmp(writer, "df")) {
         for (int k = 0; k < n; k++) {
             int r0 = 0, r1;
@@ -373,7 +487,7 @@ static void wr_img(const char *writer, int n)
         }
     }
     else if (!strcmp(writer, "gr")) {
-        int32 f  = Hopen(FN, DFACC_CREATE, 0);
+        int32 f  = Hopen(FN, file_exists(FN) ? DFACC_RDWR : DFACC_CREATE, 0);
         int32 gr = GRstart(f);
         for (int k = 0; k < n; k++) {
             char  name[32];
@@ -399,6 +513,23 @@ static void wr_img(const char *writer, int n)
         int re = GRend(gr);
         int rh = Hclose(f);
         printf("%s w grend %d %d\n", ID, re, rh);
+        /* a later session that only touches the metadata of some images (their descriptions are rewritten) */
+        if (edits[0] != '-') {
+            f  = Hopen(FN, DFACC_RDWR, 0);
+            gr = GRstart(f);
+            char *copy = strdup(edits), *save = NULL;
+            for (char *it = strtok_r(copy, ",", &save); it; it = strtok_r(NULL, ",", &save)) {
+                char name[32];
+                sprintf(name, "im%d", atoi(it));
+                int32 ri = GRselect(gr, GRnametoindex(gr, name)), val = 55 + atoi(it);
+                int   r1 = GRsetattr(ri, "later", DFNT_INT32, 1, &val);
+                int   r2 = GRendaccess(ri);
+                printf("%s w gredit %s %d %d\n", ID, it, r1, r2);
+            }
+            re = GRend(gr);
+            rh = Hclose(f);
+            printf("%s w grend2 %d %d\n", ID, re, rh);
+        }
     }
     else printf("%s w badwriter\n", ID);
 }
@@ -677,7 +808,7 @@ static void rd_ann_an(const char *fn, int nobj, int *tags, int *refs)
 /* ------------------------------------------------------------------ raw records (for the Coq record models) */
 static void dump_recs(const char *fn)
 {
-    static const uint16 tags[] = {DFTAG_NDG, DFTAG_SDG, DFTAG_SDD, DFTAG_NT, DFTAG_SD, DFTAG_SDLNK, DFTAG_RIG, DFTAG_ID,
+    static const uint16 tags[] = {DFTAG_NDG, DFTAG_SDG, DFTAG_SDD, DFTAG_NT, DFTAG_SD, DFTAG_SDLNK, DFTAG_SDS, DFTAG_RIG, DFTAG_ID,
                                   DFTAG_ID8, DFTAG_LD, DFTAG_RI, DFTAG_CI, DFTAG_RI8, DFTAG_CI8, DFTAG_LUT, DFTAG_IP8, 0};
     int32 f = Hopen(fn, DFACC_READ, 0);
     if (f == FAIL) { printf("%s rec fail\n", ID); return; }
@@ -756,17 +887,21 @@ static void run_case(const char *dir)
     snprintf(FN, sizeof FN, "%s/c-%s.hdf", dir, ID);
     unlink(FN);
     if (!strcmp(kind, "sds")) {
-        char *w = next();
-        int   n = (int)nextl();
-        wr_sds(w, n);
+        char *w   = next();
+        int   pre = (int)nextl();
+        char *ed  = next();
+        int   n   = (int)nextl();
+        wr_sds(w, n, pre, ed);
         sds_readers(FN, "dsnvg", dir);
         dump_recs(FN);
     }
     else if (!strcmp(kind, "img")) {
         char *w   = next();
+        int   pre = (int)nextl();
+        char *ed  = next();
         int   ril = (int)nextl();
         int   n   = (int)nextl();
-        wr_img(w, n);
+        wr_img(w, n, pre, ed);
         img_readers(FN, "82GpVR", dir, ril);
         dump_recs(FN);
     }
